@@ -35,6 +35,24 @@ struct Tracked
   long long tok() const { return *p; }
   long long* p;
 };
+// Two distinct data types that convert into each other implicitly - and spoil the token when they do.  If generated
+// code spells the wrong one of two same-named extern types, the program still compiles but the argument is altered.
+struct BoxB;
+struct BoxA
+{
+  long long v = -1;
+  BoxA() = default;
+  explicit BoxA(long long t) : v(t) {}
+  BoxA(const BoxB&);
+};
+struct BoxB
+{
+  long long v = -1;
+  BoxB() = default;
+  explicit BoxB(long long t) : v(t) {}
+  BoxB(const BoxA&) : v(-9) {}
+};
+inline BoxA::BoxA(const BoxB&) : v(-9) {}
 }  // namespace sim
 
 using TokInt = int;
